@@ -219,6 +219,64 @@ def ob_diff_window(ctx, W):
     return verdict(ctx, props, witness=wit, sample=lambda m: dict(wit(m), headers=got))
 
 
+FILLER = 'The quick brown fox jumps over the lazy dog, twice. '
+
+
+def _budget(n):
+    """steps the mirrored backtracking search may take on a text of n characters: a generous quadratic (the pinned
+    lexer needs about 6 n); an exponential search passes it from about 20 characters of content on"""
+    return 8 * n * n + 5000
+
+
+def _bt_text(which, L, tail):
+    from pydiffx.writer import DiffXWriter
+    st = SymStream()
+    w = DiffXWriter(st)
+    body = mk_seq(tuple(map(ord, FILLER[:L])) + tuple(tail.el) + (10,), str)
+    if which == '.preamble':
+        w.write_preamble(body, indent=0)
+        w.new_change()
+    else:
+        w.write_meta({'k': 1})
+        w.new_change()
+        w.write_preamble(body, indent=0)
+    w.new_file()
+    w.write_meta({'path': 'p'})
+    return lift(st.value()).decode('utf-8')
+
+
+def ob_backtrack(ctx, Ls, T):
+    """termination in practice: a writer-produced file whose preamble is L characters of prose followed by T symbolic
+    characters (ASCII) -- the number of steps of the backtracking search (mirrored node for node by the regex model,
+    which is validated against the native engine) must stay within a quadratic budget in the text length"""
+    from sx import regex as R
+    which = ctx.pick('section', ['.preamble', '..preamble'])
+    L = ctx.pick('L', Ls)
+    tail = sym_str(ctx, 't', T, max_cp=0x7f)
+    for e in tail.el:
+        ctx.assume(neg(el_eq(e, 10)))
+        ctx.assume(neg(el_eq(e, 13)))
+    text = _bt_text(which, L, tail)
+    n = len(lift(text).el)
+    wit = lambda m: {'kind': 'backtrack', 'text': model_str(m, text), 'filler': L, 'section': which,
+                     'tail': model_str(m, tail), 'budget': _budget(n)}
+    R.STEPS[0] = 0
+    R.STEP_BUDGET[0] = _budget(n)
+    try:
+        toks = _tokens(text)
+    except R.BacktrackBudget:
+        return viol('backtracking-budget', wit(ctx.model()))
+    except PathTimeout:
+        return viol('nontermination', wit(ctx.model()))
+    except Exception as e:
+        return viol('raised:%s' % type(e).__name__, wit(ctx.model()))
+    finally:
+        steps = R.STEPS[0]
+        R.STEP_BUDGET[0] = None
+    return verdict(ctx, _lossless_props(text, toks), witness=wit,
+                   sample=lambda m: dict(wit(m), steps=steps))
+
+
 def obligations(tier):
     quick = tier == 'quick'
     NF = 7 if quick else 9
@@ -237,6 +295,13 @@ def obligations(tier):
            path_timeout=30,
            desc='a realistic unified diff written by the real writer, 1..%d symbolic printable characters ending one of its '
                 'lines: lossless, no Error token, headers tagged' % (3 if quick else 4), bounds={'window': [1, 3 if quick else 4]}),
+        Ob('backtracking[budget]', ob_backtrack, dict(Ls=[24] if quick else [24, 32, 48], T=3 if quick else 4), path_timeout=60,
+           must_reach=['DiffXWriter._write_section_header'],
+           desc='termination in practice: writer-produced file whose preamble is L characters of prose + T symbolic ASCII '
+                'characters; steps of the backtracking search (counted in the node-for-node regex model) <= 8 n^2 + 5000 '
+                'for text length n; a counterexample is replayed on the native engine with the prose run lengthened, '
+                'under a 10 s limit', bounds={'prose_len': [24] if quick else [24, 32, 48], 'tail_len': 3 if quick else 4,
+                                               'budget': '8 n^2 + 5000 model steps'}),
     ]
 
 
@@ -269,6 +334,27 @@ def replay(ob, label, w):
     from pygments.token import Error, Name
     from pydiffx.integrations.pygments_lexer import DiffXLexer
     text = w['text']
+    if w['kind'] == 'backtrack':
+        # the same file with the prose run lengthened to 60 characters, on the native engine, in a process of its own
+        import subprocess, sys, os, time
+        import pydiffx
+        long_text = text.replace(FILLER[:w['filler']] + w['tail'], (FILLER * 2)[:60] + w['tail'], 1)
+        # (the length option of the section no longer matches; the lexer does not read it)
+        code = ('import sys\nfrom pydiffx.integrations.pygments_lexer import DiffXLexer\n'
+                't = sys.stdin.read()\nout = "".join(v for i, tt, v in DiffXLexer().get_tokens_unprocessed(t))\n'
+                'sys.exit(0 if out == t else 3)\n')
+        env = dict(os.environ, PYTHONPATH=os.path.dirname(os.path.dirname(os.path.abspath(pydiffx.__file__))))
+        t0 = time.time()
+        try:
+            r = subprocess.run([sys.executable, '-c', code], input=long_text.encode('utf-8'), env=env, timeout=10,
+                               capture_output=True)
+        except subprocess.TimeoutExpired:
+            return {'violated': True, 'signature': 'lexer:does-not-terminate',
+                    'detail': 'native lexer did not finish within 10 s on %r (model: more than %d search steps with %d '
+                              'characters of prose)' % (long_text, w['budget'], w['filler'])}
+        if r.returncode == 3:
+            return {'violated': True, 'signature': 'lexer:lossy', 'detail': repr(long_text)}
+        return {'violated': False, 'detail': 'native lexer finished in %.2fs rc=%d' % (time.time() - t0, r.returncode)}
     try:
         toks = list(DiffXLexer().get_tokens_unprocessed(text))
     except Exception as e:
